@@ -116,6 +116,7 @@ def opInDomain (st : OSt) : Op → Bool
   | .moveCursor p => st.sized && decide (0 ≤ p.x) && decide (0 ≤ p.y) && decide (p.x.toNat < st.vt.w) && decide (p.y.toNat < st.vt.h)
   | .setTitle t => titleClean t
   | .setSize e => decide (1 ≤ e.width) && decide (1 ≤ e.height)
+  | .rawWrite _ => false
   | _ => true
 
 def gridEqOn (a b : VT) (p : Nat → Nat → Bool) : Bool :=
@@ -189,6 +190,7 @@ def checkOp (c : OCfg) (beh : Behaviour) (i : Nat) (st : OSt) (op : Op) (bytes :
     | .setTitle t => { st with vt := before.feedAll bytes, lastTitle := some t }
     | .normalBuffer => { st with vt := before.feedAll bytes, lastBuf := some false }
     | .altBuffer => { st with vt := before.feedAll bytes, lastBuf := some true }
+    | .rawWrite _ => { st with vt := before.feedAll bytes }
     | .setSize e =>
       let st := if bytes.isEmpty then st else st.fail s!"C08@{i} set_size wrote bytes"
       { st with vt := resizeVT c before e.width.toNat e.height.toNat, sized := true, exp := none, savedExp := none }
